@@ -1422,9 +1422,24 @@ void psPkcs5Pbkdf2(unsigned char *password, uint32 pLen,
     uint32 blkno;
     unsigned long stored, left, i;
     unsigned char buf[2][SHA1_HASH_SIZE];
+    unsigned char hashedPw[SHA1_HASH_SIZE];
     psHmacSha1_t hmac;
 
     psAssert(password && salt && key && kLen);
+
+    /* psHmacSha1Init takes keys of at most one block: a longer password is
+       replaced by its hash, as HMAC (RFC 2104) specifies */
+    if (pLen > 64)
+    {
+        psSha1_t md;
+
+        psSha1PreInit(&md);
+        psSha1Init(&md);
+        psSha1Update(&md, password, pLen);
+        psSha1Final(&md, hashedPw);
+        password = hashedPw;
+        pLen = SHA1_HASH_SIZE;
+    }
 
     left   = kLen;
     blkno  = 1;
